@@ -168,8 +168,9 @@ def make_segment(rng, node, d, over=None, p_opt=0.3):
 # ---------------------------------------------------------------- (a) documents from a map
 
 class Body(object):
-    def __init__(self, rng, d, p_seg=0.3, p_loop=0.3, p_rep=0.15, max_segs=120):
+    def __init__(self, rng, d, p_seg=0.3, p_loop=0.3, p_rep=0.15, max_segs=120, loop_twice=False):
         self.rng, self.d = rng, d
+        self.loop_twice = loop_twice      # every (non-wrapper) loop instantiated twice, whatever its repeat limit
         self.p_seg, self.p_loop, self.p_rep, self.max_segs = p_seg, p_loop, p_rep, max_segs
         self.segs = []
         self.hl = 0
